@@ -631,8 +631,9 @@ def sqrt_mono_axioms():
     x, y = z3.Consts('sm_x sm_y', Val)
     return [z3.ForAll([x, y], z3.Implies(z3.Not(vlt(y, x)), z3.Not(vlt(vsqrt(y), vsqrt(x)))),
                       patterns=[z3.MultiPattern(vsqrt(x), vsqrt(y))]),
-            # the square root of a finite value is finite
-            z3.ForAll([x], z3.Implies(vlt(x, vinf), vlt(vsqrt(x), vinf)), patterns=[vsqrt(x)])]
+            # the square root of a finite value is finite, of +inf it is +inf
+            z3.ForAll([x], z3.Implies(vlt(x, vinf), vlt(vsqrt(x), vinf)), patterns=[vsqrt(x)]),
+            vsqrt(vinf) == vinf]
 
 
 THEORIES['sqrtmono'] = sqrt_mono_axioms
@@ -703,3 +704,105 @@ def _argmincol_sqrt_obligations():
 
 LEMMAS['ArgMinColSqrt'] = Lemma('ArgMinColSqrt', _argmincol_sqrt_axiom, _argmincol_sqrt_obligations,
                                 doc='np.argmin over the square roots of the last-column cells selects sqrt(PsiCol(psi_1e, r))')
+
+
+# ---------------------------------------------------------------------------------------------
+# Early abandoning (C03): cells whose three predecessors are above a bound m are above it (costs and the penalty are
+# non-negative, rounded addition of a non-negative term does not decrease), hence whole stretches of a row.
+def nonneg_axioms():
+    """IEEE facts on non-NaN doubles: squares and absolute values are non-negative; adding a non-negative term (on either
+    side) does not decrease a value."""
+    d, x = z3.Consts('nn_d nn_x', Val)
+    return [z3.ForAll([d], z3.Not(vlt(vmul(d, d), vzero)), patterns=[vmul(d, d)]),
+            z3.ForAll([d], z3.Not(vlt(vabs(d), vzero)), patterns=[vabs(d)]),
+            z3.ForAll([d, x], z3.Implies(z3.Not(vlt(d, vzero)), z3.Not(vlt(vadd(d, x), x))), patterns=[vadd(d, x)]),
+            z3.ForAll([d, x], z3.Implies(z3.Not(vlt(d, vzero)), z3.Not(vlt(vadd(x, d), x))), patterns=[vadd(x, d)])]
+
+
+THEORIES['nonneg'] = nonneg_axioms
+_m = z3.Const('ea_m', Val)
+_ii, _jj, _k0 = z3.Ints('ea_i ea_j ea_k0')
+_PEN, _ND = _ctxc[7], _ctxc[12]
+_EA_CTX = z3.And(z3.Not(vlt(_PEN, vzero)), _ND == 0, vlt(_m, vinf))
+
+
+def _cellabove_axiom():
+    hyp = z3.And(_EA_CTX, _ii >= 1, _jj >= 1, vlt(_m, Wf(*_ctxc, _ii - 1, _jj - 1)), vlt(_m, Wf(*_ctxc, _ii - 1, _jj)),
+                 vlt(_m, Wf(*_ctxc, _ii, _jj - 1)))
+    return [z3.ForAll(_ctxc + [_m, _ii, _jj], z3.Implies(hyp, vlt(_m, Wf(*_ctxc, _ii, _jj))),
+                      patterns=[z3.MultiPattern(vlt(_m, Wf(*_ctxc, _ii - 1, _jj - 1)), Wf(*_ctxc, _ii, _jj))])]
+
+
+def _cellabove_obligations():
+    body = _cellabove_axiom()[0].body()
+    inst = z3.substitute_vars(body, *reversed(_ctxc + [_m, _ii, _jj]))
+    return [Obligation('lemma:CellAbove::unfold', 'lemma', [], inst, 'lemma:CellAbove', props=('C03',),
+                       note='a cell whose three predecessors exceed m exceeds m', axioms=w_axioms() + order_axioms() + nonneg_axioms())]
+
+
+LEMMAS['CellAbove'] = Lemma('CellAbove', _cellabove_axiom, _cellabove_obligations,
+                            doc='a cell whose three predecessors are above a bound is above it (non-negative costs and penalty)')
+
+induction_lemma(
+    'RowAboveLeft', _ctxc + [_m, _ii], _kk, 0,
+    hyp=lambda k: z3.And(_EA_CTX, _ii >= 1, vlt(_m, Wf(*_ctxc, _ii, 0)),
+                         z3.ForAll([_j], z3.Implies(z3.And(0 <= _j, _j <= k), vlt(_m, Wf(*_ctxc, _ii - 1, _j))),
+                                   patterns=[Wf(*_ctxc, _ii - 1, _j)])),
+    prop=lambda k: vlt(_m, Wf(*_ctxc, _ii, k)),
+    patterns=lambda k: [z3.MultiPattern(Wf(*_ctxc, _ii, k), vlt(_m, Wf(*_ctxc, _ii, 0)))],
+    doc='if the cells 0..k of the previous row and the border cell of this row are above m, cell k of this row is above m',
+    axioms=LEMMAS['CellAbove'].axioms() + order_axioms(), props=('C03',))
+induction_lemma(
+    'RowAboveRight', _ctxc + [_m, _ii, _k0], _kk, _k0,
+    hyp=lambda k: z3.And(_EA_CTX, _ii >= 1, _k0 >= 1, vlt(_m, Wf(*_ctxc, _ii, _k0)),
+                         z3.ForAll([_j], z3.Implies(z3.And(_k0 <= _j, _j <= k), vlt(_m, Wf(*_ctxc, _ii - 1, _j))),
+                                   patterns=[Wf(*_ctxc, _ii - 1, _j)])),
+    prop=lambda k: vlt(_m, Wf(*_ctxc, _ii, k)),
+    patterns=lambda k: [z3.MultiPattern(Wf(*_ctxc, _ii, k), vlt(_m, Wf(*_ctxc, _ii, _k0)))],
+    doc='if cell k0 of this row and the cells k0..k of the previous row are above m, cell k of this row is above m',
+    axioms=LEMMAS['CellAbove'].axioms() + order_axioms(), props=('C03',))
+spec('Agree', z3=lambda ex, st, m, x, w: z3.Or(z3.And(vlt(vlit(m), vlit(x)), vlt(vlit(m), vlit(w))), vlit(x) == vlit(w)),
+     py=lambda ex, st, m, x, w: (x > m and w > m) or x == w,
+     doc='a computed cell and the specification agree unless both are above the bound m')
+
+spec('MaxDistAdj', z3=lambda ex, st, metric, m: adj(zint(metric), vlit(m)),
+     py=lambda ex, st, metric, m: (m * m if metric == 0 else m), doc='max_dist after inner_val (squared for the squared-Euclidean inner distance)')
+
+_a1, _b1, _c1 = z3.Consts('ea_a ea_b ea_c', Val)
+# trigger marker (always true): names the bound, the cell and the three buffer values read for it
+AStepf = z3.Function('AStep', Val, IntS, IntS, Val, Val, Val, BoolS)
+
+
+def astep_axioms():
+    return [z3.ForAll([_m, _ii, _jj, _a1, _b1, _c1], AStepf(_m, _ii, _jj, _a1, _b1, _c1), patterns=[AStepf(_m, _ii, _jj, _a1, _b1, _c1)])]
+
+
+THEORIES['astep'] = astep_axioms
+spec('AStep', z3=lambda ex, st, m, i, j, a, b, c: AStepf(vlit(m), zint(i), zint(j), vlit(a), vlit(b), vlit(c)),
+     py=lambda ex, st, m, i, j, a, b, c: True)
+
+
+def _agree(m, x, w):
+    return z3.Or(z3.And(vlt(m, x), vlt(m, w)), x == w)
+
+
+def _agreestep_axiom():
+    ctx = _ctxc
+    cost = cost_term(ctx, _ii - 1, _jj - 1)
+    new = vadd(cost, min3(_a1, vadd(_b1, _PEN), vadd(_c1, _PEN)))
+    hyp = z3.And(_EA_CTX, _ii >= 1, _jj >= 1, band(_ii - 1, _jj - 1, ctx[2], ctx[5], ctx[6]), z3.Not(vlt(ctx[8], cost)),
+                 _agree(_m, _a1, Wf(*ctx, _ii - 1, _jj - 1)), _agree(_m, _b1, Wf(*ctx, _ii - 1, _jj)),
+                 _agree(_m, _c1, Wf(*ctx, _ii, _jj - 1)))
+    return [z3.ForAll(ctx + [_m, _ii, _jj, _a1, _b1, _c1], z3.Implies(hyp, _agree(_m, new, Wf(*ctx, _ii, _jj))),
+                      patterns=[z3.MultiPattern(Wf(*ctx, _ii, _jj), AStepf(_m, _ii, _jj, _a1, _b1, _c1))])]
+
+
+def _agreestep_obligations():
+    body = _agreestep_axiom()[0].body()
+    inst = z3.substitute_vars(body, *reversed(_ctxc + [_m, _ii, _jj, _a1, _b1, _c1]))
+    return [Obligation('lemma:AgreeStep::unfold', 'lemma', [], inst, 'lemma:AgreeStep', props=('C03',),
+                       note='the recurrence step preserves agreement up to the bound', axioms=w_axioms() + order_axioms() + nonneg_axioms())]
+
+
+LEMMAS['AgreeStep'] = Lemma('AgreeStep', _agreestep_axiom, _agreestep_obligations,
+                            doc='if the three predecessor cells agree with W (equal, or both above the bound), so does the new cell')
